@@ -29,6 +29,21 @@ def fact_atom(fact):
     return e, pol
 
 
+def presence_fact(fact):
+    """(expr, present) when the fact says that an object reference is there or not: `x` / `not x` / `x is None` / `x is not None`
+    (for a reference that is either an object or None the four say the same thing).  (None, None) otherwise."""
+    e, pol = fact_atom(fact)
+    if isinstance(e, ast.Compare) and len(e.ops) == 1 and isinstance(e.comparators[0], ast.Constant) and e.comparators[0].value is None:
+        if isinstance(e.ops[0], (ast.Is, ast.Eq)):
+            return e.left, (not pol)
+        if isinstance(e.ops[0], (ast.IsNot, ast.NotEq)):
+            return e.left, pol
+        return None, None
+    if isinstance(e, (ast.Name, ast.Attribute)):
+        return e, pol
+    return None, None
+
+
 def cmp_parts(e):
     """For a single comparison `a OP b` return (a, op-name, b)."""
     if isinstance(e, ast.Compare) and len(e.ops) == 1:
